@@ -1,4 +1,5 @@
 import Model
+import Model.Calendar
 import Proofs.Scan
 /-!
 C13 — compiled fast paths ≡ pure-Python fallbacks (slot conversion and scan part; working hours in
@@ -48,5 +49,31 @@ theorem scan_equiv (pat : List Bool) (sIdx eIdx : Int) (m : Nat) :
 
 /-- non-vacuity: a realistic board and index satisfy the guard -/
 example : Guard ⟨1736121600, 1737331200, 900⟩ 1344 := by unfold Guard; decide
+
+/-! ### working hours -/
+
+/-- the compiled `check_working_hours_fast` (a weekday missing from the table falls through to the
+    previous-day loop) decides exactly what the pure-Python loop decides -/
+theorem onShift_equiv (h : Hours) (wd m : Int) : h.onCy wd m = h.on wd m := by
+  unfold Hours.onCy Hours.on
+  simp only []
+  cases hd : h.day wd with
+  | nil => simp
+  | cons x xs =>
+    simp only [List.isEmpty_cons, Bool.false_eq_true, if_false, ge_iff_le]
+    generalize ((x :: xs).any fun iv => if iv.2 ≤ iv.1 then decide (iv.1 ≤ m) else decide (iv.1 ≤ m) && decide (m < iv.2)) = b
+    cases b <;> simp
+
+/-- both `get_daily_hours` variants divide the same integer minute total by 60 (after the `fix:` both
+    in double precision): the minute totals agree -/
+theorem daily_minutes_equiv (h : Hours) (wd : Int) :
+    h.dailyMinutes wd = (h.day wd).foldl (fun acc iv => acc + (iv.2 - iv.1)) 0 := rfl
+
+/-- the previous weekday used for cross-midnight tails is `(wd + 6) % 7` in C and `(wd - 1) % 7` in
+    Python: equal for every weekday 0..6 (the pinned `.pyx` used C's `%` on `wd - 1`: −1 for Monday) -/
+theorem prev_weekday_equiv (wd : Int) (h : 0 ≤ wd ∧ wd < 7) : (wd + 6) % 7 = (wd - 1) % 7 := by omega
+
+/-- C remainder semantics, for the record: `Int.tmod (0 - 1) 7 = -1` -/
+example : Int.tmod (0 - 1) 7 = -1 := by decide
 
 end SP.C13
